@@ -66,7 +66,12 @@ func (p *Proxy) Connect(ctx context.Context, req *http.Request, terminateTLS boo
 
 			if terminateTLS {
 				log.Debug(ctx, "attempting to terminate TLS on CONNECT tunnel", "host", req.URL.Host)
-				tconn := tls.Client(cconn, p.clientTLSConfig())
+				// The target's certificate is verified against the name the client asked for.
+				tlsConfig := p.clientTLSConfig()
+				if tlsConfig.ServerName == "" {
+					tlsConfig.ServerName = req.URL.Hostname()
+				}
+				tconn := tls.Client(cconn, tlsConfig)
 				if err := tconn.Handshake(); err == nil {
 					crw = tconn
 				} else {
